@@ -989,4 +989,154 @@ theorem header_layout (M C1 C2 C3 T RL IDX CD CRC : Bytes) (b4 off : Nat) (fl : 
   exact hC
 
 
+/-! ### the encoder's pieces -/
+
+theorem wf_append {a b : Bytes} (ha : Bytes.WF a) (hb : Bytes.WF b) : Bytes.WF (a ++ b) := by
+  intro x hx; rcases List.mem_append.mp hx with h | h
+  · exact ha x h
+  · exact hb x h
+
+theorem wf_flatMap_be {α : Type} (w : Nat) (g : α → Nat) (xs : List α) : Bytes.WF (xs.flatMap (fun x => natToBE w (g x))) := by
+  intro b hb
+  obtain ⟨x, _, hx⟩ := List.mem_flatMap.mp hb
+  exact natToBE_wf _ _ b hx
+
+theorem wf_flatMap_be' (w : Nat) (xs : List Nat) : Bytes.WF (xs.flatMap (natToBE w)) := wf_flatMap_be w id xs
+
+theorem wf_flatten (xs : List Bytes) (h : ∀ x ∈ xs, Bytes.WF x) : Bytes.WF xs.flatten := by
+  intro b hb
+  obtain ⟨x, hx, hbx⟩ := List.mem_flatten.mp hb
+  exact h x hx b hbx
+
+theorem encodeCell_wf (size : Nat) (c : SCell) (store : Bool) (ok : RecOK size c) : Bytes.WF (encodeCell size c store) := by
+  unfold encodeCell
+  have hb := ok.bits; have hr := ok.refs; have hm := ok.mask
+  refine wf_append (wf_append (wf_append ?_ ?_) ?_) (wf_flatMap_be' _ _)
+  · intro b hb'
+    simp only [List.mem_cons, List.not_mem_nil, or_false] at hb'
+    rcases hb' with rfl | rfl
+    · split <;> split <;> omega
+    · unfold Spec.d2; omega
+  · split
+    · unfold hashBlock
+      exact wf_append (wf_flatten _ (fun x hx => (ok.hashes32 x hx).2)) (wf_flatMap_be' _ _)
+    · intro b hb'; cases hb'
+  · exact bitsToBytes_wf _
+
+theorem encodeCell_length_ge (size : Nat) (c : SCell) (store : Bool) : 2 ≤ (encodeCell size c store).length := by
+  unfold encodeCell; simp only [List.length_append, List.length_cons]; omega
+
+theorem records_length (size : Nat) (store : List Bool) : ∀ (cs : List SCell) (base : Nat),
+    (records size store cs base).length = cs.length := by
+  intro cs; induction cs with
+  | nil => intro _; rfl
+  | cons c cs ih => intro base; simp [records, ih]
+
+theorem records_wf (size : Nat) (store : List Bool) : ∀ (cs : List SCell) (base : Nat), (∀ c ∈ cs, RecOK size c) →
+    ∀ r ∈ records size store cs base, Bytes.WF r := by
+  intro cs; induction cs with
+  | nil => intro _ _ r hr; cases hr
+  | cons c cs ih =>
+    intro base h r hr
+    simp only [records, List.mem_cons] at hr
+    rcases hr with rfl | hr
+    · exact encodeCell_wf _ _ _ (h c List.mem_cons_self)
+    · exact ih (base + 1) (fun x hx => h x (List.mem_cons_of_mem _ hx)) r hr
+
+theorem records_flatten_ge (size : Nat) (store : List Bool) (cs : List SCell) (base : Nat) (h : 0 < cs.length) :
+    2 ≤ ((records size store cs base).flatten).length := by
+  cases cs with
+  | nil => simp at h
+  | cons c cs =>
+    simp only [records, List.flatten_cons, List.length_append]
+    have := encodeCell_length_ge size c (store.getD base false); omega
+
+theorem endOffsets_length : ∀ (rs : List Bytes) (acc : Nat), (endOffsets rs acc).length = rs.length := by
+  intro rs; induction rs with
+  | nil => intro _; rfl
+  | cons r rs ih => intro acc; simp [endOffsets, ih]
+
+theorem indexEntries_length (cache : Bool) (cf : List Bool) : ∀ (es : List Nat) (k : Nat),
+    (indexEntries cache cf es k).length = es.length := by
+  intro es; induction es with
+  | nil => intro _; rfl
+  | cons e es ih => intro k; simp [indexEntries, ih]
+
+theorem two_le_pow_off (off tot : Nat) (h2 : 2 ≤ tot) (h : tot < 256 ^ off) : off ≠ 0 := by
+  intro h0; subst h0; simp at h; omega
+
+/-! ### flag bytes of the three constructors -/
+
+theorem readFlags_generic (idx crc cache : Bool) (size : Nat) (hs : size < 8) (r : Bytes) :
+    readFlags ([0xb5, 0xee, 0x9c, 0x72] ++
+      (128 * (if idx then 1 else 0) + 64 * (if crc then 1 else 0) + 32 * (if cache then 1 else 0) + size) :: r) =
+      some { generic := true, hasIdx := idx, hasCrc := crc, hasCacheBits := cache, flags := 0, sizeBytes := size } := by
+  have hs' : size = 0 ∨ size = 1 ∨ size = 2 ∨ size = 3 ∨ size = 4 ∨ size = 5 ∨ size = 6 ∨ size = 7 := by omega
+  rcases hs' with rfl | rfl | rfl | rfl | rfl | rfl | rfl | rfl <;> cases idx <;> cases crc <;> cases cache <;>
+    simp [readFlags, pySlice, magicGeneric] <;> decide
+
+theorem readFlags_idx (size : Nat) (r : Bytes) :
+    readFlags ([0x68, 0xff, 0x65, 0xf3] ++ size :: r) =
+      some { generic := false, hasIdx := true, hasCrc := false, hasCacheBits := false, flags := 0, sizeBytes := size } := by
+  simp [readFlags, pySlice, magicGeneric, magicIdx]
+
+theorem readFlags_idxCrc (size : Nat) (r : Bytes) :
+    readFlags ([0xac, 0xc3, 0xa7, 0x28] ++ size :: r) =
+      some { generic := false, hasIdx := true, hasCrc := true, hasCacheBits := false, flags := 0, sizeBytes := size } := by
+  simp [readFlags, pySlice, magicGeneric, magicIdx, magicIdxCrc]
+
+/-! ### header of an encoding -/
+
+theorem crcBytes_spec (body : Bytes) (h : Bytes.WF body) :
+    Model.crc32c body = some (crcBytes body) ∧ (crcBytes body).length = 4 := by
+  constructor
+  · have := TonVerif.Properties.C18.c18_crc32c body h false
+    simpa [crcBytes] using this
+  · simp [crcBytes, Spec.le32]
+
+theorem header_of_layout (M RL IDX CD : Bytes) (b4 off size n nr : Nat) (fl : Flags)
+    (hM : M.length = 4) (hMwf : Bytes.WF M) (hfl : ∀ r, readFlags (M ++ b4 :: r) = some fl) (hsz : fl.sizeBytes = size)
+    (hs1 : 1 ≤ size) (hn : n < 256 ^ size) (hnr : nr < 256 ^ size) (htot : CD.length < 256 ^ off) (hoff : off ≠ 0)
+    (hb4 : b4 < 256) (hoff8 : off < 256)
+    (hRL : RL.length = if fl.generic then nr * size else 0) (hleg : fl.generic = false → nr = 1)
+    (hIDX : IDX.length = if fl.hasIdx then n * off else 0)
+    (wRL : Bytes.WF RL) (wIDX : Bytes.WF IDX) (wCD : Bytes.WF CD) :
+    let body := M ++ [b4] ++ [off] ++ (natToBE size n ++ natToBE size nr ++ natToBE size 0 ++ natToBE off CD.length) ++ RL ++ IDX ++ CD
+    let data := if fl.hasCrc then body ++ crcBytes body else body
+    ∃ h, deserializeBocHeader data = some h ∧ h.fl = fl ∧ h.cellsNum = n ∧ h.cellsData = CD ∧
+      h.rootList = (if fl.generic then uintsAt data (6 + 3 * size + off) size nr else [0]) := by
+  intro body data
+  have hbody : body = M ++ b4 :: off :: (natToBE size n ++ natToBE size nr ++ natToBE size 0 ++ natToBE off CD.length ++ RL ++ IDX ++ CD) := by
+    simp [body, List.append_assoc]
+  have wbody : Bytes.WF body := by
+    rw [hbody]
+    refine wf_append hMwf ?_
+    intro x hx
+    simp only [List.mem_cons] at hx
+    rcases hx with rfl | rfl | hx
+    · exact hb4
+    · exact hoff8
+    · exact wf_append (wf_append (wf_append (wf_append (wf_append (wf_append (natToBE_wf _ _) (natToBE_wf _ _)) (natToBE_wf _ _))
+        (natToBE_wf _ _)) wRL) wIDX) wCD x hx
+  obtain ⟨k1, k2⟩ := crcBytes_spec body wbody
+  have e1 := natOfBE_natToBE size n hn
+  have e2 := natOfBE_natToBE size nr hnr
+  have e3 := natOfBE_natToBE size 0 (Nat.pow_pos (by omega))
+  have e4 := natOfBE_natToBE off CD.length htot
+  subst hsz
+  obtain ⟨rl, idx, hh, hrl⟩ := header_layout M (natToBE fl.sizeBytes n) (natToBE fl.sizeBytes nr) (natToBE fl.sizeBytes 0)
+    (natToBE off CD.length) RL IDX CD (if fl.hasCrc then crcBytes body else []) b4 off fl hM hfl hs1
+    (natToBE_length _ _) (natToBE_length _ _) (natToBE_length _ _) (natToBE_length _ _)
+    (by rw [e2]; exact hRL) (by rw [e2]; exact hleg) (by rw [e1]; exact hIDX) hoff (by rw [e4])
+    (by rw [← hbody]; split
+        · exact ⟨k1, k2⟩
+        · rfl)
+  have hdata : data = M ++ b4 :: off :: (natToBE fl.sizeBytes n ++ natToBE fl.sizeBytes nr ++ natToBE fl.sizeBytes 0 ++
+      natToBE off CD.length ++ RL ++ IDX ++ CD) ++ (if fl.hasCrc then crcBytes body else []) := by
+    simp only [data]; rw [← hbody]; split <;> simp
+  rw [← hdata] at hh hrl
+  refine ⟨_, hh, rfl, ?_, rfl, ?_⟩
+  · simp [e1]
+  · simp only [hrl, e2]
+
 end TonVerif.Proofs.BocParse
